@@ -101,12 +101,16 @@ class Ov:
     def __init__(self, I, ov):
         self._I = I
         self._ov = ov
+        self.used = set()
 
     def __getattr__(self, n):
         return getattr(self._I, n)
 
     def _c(self, name, mk):
-        return self._ov[name] if name in self._ov else mk()
+        if name in self._ov:
+            self.used.add(name)
+            return self._ov[name]
+        return mk()
 
     def ibv(self, name, code):
         return self._c(name, lambda: self._I.ibv(name, code))
@@ -131,7 +135,13 @@ class Ov:
 
 def build(I, kind: str, sh: dict, tag: str = "b", ov=None):
     if ov:
-        I = Ov(I, ov)
+        w = Ov(I, ov)
+        blk = globals()["build_" + kind](w, sh, tag)
+        if set(ov) - w.used:
+            from symtdf.inputs import HarnessError
+
+            raise HarnessError(f"override(s) {sorted(set(ov) - w.used)} name no input of this block: the harness, not the code, is wrong")
+        return blk
     return globals()["build_" + kind](I, sh, tag)
 
 
